@@ -26,7 +26,7 @@ DIMS = List(Tup(Nat, Nat))
 
 DENSE = {
     "ereal": CheckFn("c09-dense-ereal", "Model.Solve", "dense_check_ereal", Tup(Nat, Nat, M(EW), M(EW), M(OBS), M(EW))),
-    "trop": CheckFn("c09-dense-trop", "Model.Solve", "dense_check_trop", Tup(Bool, Nat, Nat, M(TW), M(TW), M(TW), M(TW))),
+    "trop": CheckFn("c09-dense-trop", "Model.Solve", "dense_check_trop", Tup(Nat, Nat, M(TW), M(TW), M(TW), M(TW))),
     "bool": CheckFn("c09-dense-bool", "Model.Solve", "dense_check_bool", Tup(Nat, Nat, M(Bool), M(Bool), M(Bool), M(Bool))),
 }
 LU = CheckFn("c09-real-lu", "Model.Solve", "real_lu_check", Tup(Nat, M(EW), List(EW), Option(List(Tup(Nat, QQ))), List(OBS)))
@@ -34,7 +34,7 @@ MSOLVE = {
     "ereal": CheckFn("c09-msolve-ereal", "Model.MultiSolve", "multi_solve_check_ereal",
                      Tup(DIMS, List(Nat), Bool, B2(EW), B1(EW), B1(OBS), List(EW))),
     "trop": CheckFn("c09-msolve-trop", "Model.MultiSolve", "multi_solve_check_trop",
-                    Tup(Bool, DIMS, List(Nat), Bool, B2(TW), B1(TW), B1(TW), List(TW))),
+                    Tup(DIMS, List(Nat), Bool, B2(TW), B1(TW), B1(TW), List(TW))),
     "bool": CheckFn("c09-msolve-bool", "Model.MultiSolve", "multi_solve_check_bool",
                     Tup(DIMS, List(Nat), Bool, B2(Bool), B1(Bool), B1(Bool), List(Bool))),
 }
@@ -58,7 +58,6 @@ ASSUMPTIONS = [
     "PatternedTensor.solve is compared with the dense model on the densified arguments (its axis computation is not modelled: tier-B item)",
 ]
 
-FK_F2 = "F2_viterbi_star_at_zero"
 FK_F18 = "F18_patterned_solve_disjoint_support"
 FK_DIV = "real_log_divergent_system_huge_finite"
 
@@ -112,19 +111,10 @@ def run_dense_case(name, n, m, A, Bm):
     if tuple(x.shape) != tuple(b.shape): raise U.BadValue("output shape %r for rhs shape %r" % (tuple(x.shape), tuple(b.shape)))
     return dict(X=X, lu=log, modified=modified)
 
-_STAR0 = []
-def viterbi_star0_is_inf():
-    """which star does the code have?  (finding F2: star(0.) = inf; repaired: 0.)"""
-    if not _STAR0:
-        import torch
-        _STAR0.append(bool(U.semiring("viterbi").star(torch.tensor(0., dtype=torch.float64)).item() == math.inf))
-    return _STAR0[0]
-
 def dense_value(name, n, m, A, Bm, X):
     Uc = certificate(name, A, Bm)
     w = lambda Mx: U.wire_mat(name, Mx)
-    v = (n, m, w(A), w(Bm), X, w(Uc))
-    return ((viterbi_star0_is_inf(),) + v) if name == "viterbi" else v
+    return (n, m, w(A), w(Bm), X, w(Uc))
 
 def dense_cases(rng, tier):
     per = 260 if tier == "quick" else 3500
@@ -388,11 +378,10 @@ def multi_solve_value(c, r):
     u = U.xsolve(R, A, bb)
     w = lambda v: U.wire_val(name, v)
     ord_full = order if order else []
-    v = (dims, ord_full, c["transpose"],
-         [((x, y), U.wire_mat(name, blk)) for (x, y), blk in c["a"]],
-         [(x, [w(v) for v in vec]) for x, vec in c["b"]],
-         r["out"], [w(v) for v in u])
-    return ((viterbi_star0_is_inf(),) + v) if name == "viterbi" else v
+    return (dims, ord_full, c["transpose"],
+            [((x, y), U.wire_mat(name, blk)) for (x, y), blk in c["a"]],
+            [(x, [w(v) for v in vec]) for x, vec in c["b"]],
+            r["out"], [w(v) for v in u])
 
 def mv_cases(rng, tier):
     cases = []
@@ -450,7 +439,7 @@ CODE_TEXT = {
     2: "the N-step series sum_{k<=N} A^k b is not below the output (verified lower-bound oracle rejects it)",
     3: "the output is not below a certified pre-solution (upper-bound certificate rejects it)",
     4: "the output is a solution but not the least one (it exceeds the model's least solution)",
-    6: "Viterbi: the output is a solution but not the least one; it is reproduced exactly by the model run with ViterbiSemiring.star as coded (star(0) = inf)",
+    6: "the output is a solution but not the least one, and a pivot equals the semiring one (only reachable when the code's star differs from the semiring's)",
     7: "Real: torch.linalg.solve's answer was accepted (finite input, all entries >= 0) although it is not the least solution",
     8: "Real/Log: the series diverges (least solution +inf) but the float computation returns finite values >= 1e12",
     10: "the output differs from the Gallina model although no oracle rejects it",
@@ -462,7 +451,6 @@ CODE_TEXT = {
 def violation_for(code, c, observed, call, extra=None):
     name = c["semiring"]
     fk = None
-    if code == 6 and name == "viterbi": fk = FK_F2
     if code == 8 and name in ("real", "log"): fk = FK_DIV
     found = code in (1, 2, 3, 4, 6, 7, 8)
     case = {k: U.jsonable(v) for k, v in c.items()}
@@ -683,7 +671,7 @@ def run(tier, seed):
     cov = dict(evaluations=evals, distinct_nontrivial=len(seen_nontrivial),
                rule="dense/patterned: n <= 4, entries from the exact grids (Real/Log: 0, 1/4, 1/2, 1, 2, inf; Viterbi: -inf, -3..2, +inf; Bool), classes forcing spectral radius < 1 (row sums < 1 / negative weights), = 1 (row-stochastic, zero-weight cycles), > 1, infinite entries, zero rows, triangular; vector and matrix right-hand sides. multi: all 16 x 4 presence patterns of a 2-block system x transpose, sampled 3- and 4-block systems, block shapes (), (2,), (2,2), (3,), three key types, order recorded from the implementation. non-trivial = dense: n >= 2 with a non-zero off-diagonal entry; multi: >= 2 present blocks; distinct by full case content",
                samples=samples[:6], histogram=hist, kernel_reevaluated=kernel, lu_path_observed=lu_taken,
-               order_model_set_iteration_assumption_held=order_sets_ok, viterbi_star_at_0_is_inf=viterbi_star0_is_inf(), phase_seconds=phase, job_seconds=JOB_SECONDS,
+               order_model_set_iteration_assumption_held=order_sets_ok, phase_seconds=phase, job_seconds=JOB_SECONDS,
                open_items=OPEN_ITEMS)
     return cov, violations
 
@@ -731,7 +719,7 @@ def replay(path):
 
 MANIFEST = dict(
     level="proof",
-    text="Coq theorems, generic over an abstract ordered star-semiring (law records as premises): recursive elimination of the unknowns in ANY order yields a solution of x = A x + b (from star-unfold alone) that is below every pre-solution (from star-induction); the in-place Gauss-Jordan loop of Semiring.solve_thunks (modelled statement by statement on lists, vector and matrix right-hand sides) computes the same vector; the partial sums of sum A^k b are below it, with equality at N = dim in bool; the block version over an abstract ordered star-semimodule (non-commutative coefficients) and its instance by N x N matrices with the dense solver on the diagonal blocks; RealSemiring's LU fast path agrees with the generic routine when its oracle returns the unique rational solution; multi_mv equals the dense product of the assembled blocks (also transposed); the model of _order_nonterminals returns a duplicate-free enumeration of the keys for every set-iteration order; soundness/completeness of the executable oracles is_solution_b, series_le_b, cert_le_b, is_least_solution_b; Viterbi (finding F2): the star as coded (star(0)=inf) still yields a solution, a refutation witness for leastness, and leastness under the guard 'no pivot is exactly 0'. Tied to /repo by running model and implementation on the same exact-grid inputs (dense n <= 4, 4 semirings; block systems with every presence pattern of 2 blocks and sampled 3/4 blocks, transpose, recorded elimination order; PatternedTensor.solve on typed sparsity patterns) and judging every implementation output with the extracted oracles; arguments are byte-snapshotted.",
-    note="Trusted: Coq kernel + vm_compute, extraction cross-checked in the kernel on a sample and on every non-zero verdict, the Python harness (float <-> rational conversion, math.log/exp for the Log reading, 1e-9 tolerance), semiring law records of the carriers (premises; proved under C08). Open: refinement of multi_solve_model to the block elimination (checked at run time against the dense model instead); PatternedTensor.solve's axis iteration (tier B). Known findings: F2 (Viterbi star at 0; the harness probes star(0.) and runs the model with the star the code has), F18 (PatternedTensor.solve AssertionError on disjoint support), F21 (new: Real/Log return huge finite numbers for divergent systems whose pivots are not float-exact).",
+    text="Coq theorems, generic over an abstract ordered star-semiring (law records as premises): recursive elimination of the unknowns in ANY order yields a solution of x = A x + b (from star-unfold alone) that is below every pre-solution (from star-induction); the in-place Gauss-Jordan loop of Semiring.solve_thunks (modelled statement by statement on lists, vector and matrix right-hand sides) computes the same vector; the partial sums of sum A^k b are below it, with equality at N = dim in bool; the block version over an abstract ordered star-semimodule (non-commutative coefficients) and its instance by N x N matrices with the dense solver on the diagonal blocks; RealSemiring's LU fast path agrees with the generic routine when its oracle returns the unique rational solution; multi_mv equals the dense product of the assembled blocks (also transposed); the model of _order_nonterminals returns a duplicate-free enumeration of the keys for every set-iteration order; soundness/completeness of the executable oracles is_solution_b, series_le_b, cert_le_b, is_least_solution_b; Viterbi (finding F2, repaired in /repo commit d2ec7af): the former star (star(0)=inf) still yields a solution, a refutation witness for leastness, and leastness under the guard 'no pivot is exactly 0'. Tied to /repo by running model and implementation on the same exact-grid inputs (dense n <= 4, 4 semirings; block systems with every presence pattern of 2 blocks and sampled 3/4 blocks, transpose, recorded elimination order; PatternedTensor.solve on typed sparsity patterns) and judging every implementation output with the extracted oracles; arguments are byte-snapshotted.",
+    note="Trusted: Coq kernel + vm_compute, extraction cross-checked in the kernel on a sample and on every non-zero verdict, the Python harness (float <-> rational conversion, math.log/exp for the Log reading, 1e-9 tolerance), semiring law records of the carriers (premises; proved under C08). Open: refinement of multi_solve_model to the block elimination (checked at run time against the dense model instead); PatternedTensor.solve's axis iteration (tier B). F2 (Viterbi star at 0) was repaired in /repo commit d2ec7af; a regression shows as 'not the least solution'. Known findings: F18 (PatternedTensor.solve AssertionError on disjoint support), F21 (new: Real/Log return huge finite numbers for divergent systems whose pivots are not float-exact).",
     technique="Coq proof (model + theorems) + model/implementation correspondence with verified-spec oracles",
     design_ref="DESIGN.md section 6, C09; Appendix A.5, A.7; Appendix C (C09)")
